@@ -303,6 +303,13 @@ fn language_history(sink: &mut Sink, scratch: &str, bin: &str, variant: usize) {
             Step { langs: "", target: "src", cwd: "", edit: None },
             all(""),
         ],
+        // a cached file's bytes reappear under another extension (a copy, a rename): same content
+        // hash, another language, other counts
+        12 => vec![
+            all(l(&[("Mine", "\"#\"")])),
+            Step { langs: l(&[("Mine", "\"#\"")]), target: ".", cwd: "", edit: Some(("src/copy.mine", "// aaaaaaa\n// bbbbbbb\n")) },
+            Step { langs: l(&[("Mine", "\"#\"")]), target: ".", cwd: "", edit: Some(("mail/x.rs", "# aaaaa\n# bbbbb\n")) },
+        ],
         // a source file reached through a symbolic link and named explicitly; its target is edited
         9 => vec![
             Step { langs: l(&[("Mine", "\"#\"")]), target: "--files link.rs", cwd: "", edit: None },
@@ -420,7 +427,7 @@ pub fn run(tier: Tier, seed: u64, out: &str) {
         for sc in &scripts {
             history(&mut sink, &mut r, &scratch, &bin, true, Some(sc));
         }
-        for v in 0..12 {
+        for v in 0..13 {
             language_history(&mut sink, &scratch, &bin, v);
         }
         for i in 0..tier.scale(250, 10_000) {
